@@ -104,7 +104,7 @@ func drawInvalidTS(t *rapid.T, label string) RawTS {
 	case 2:
 		return RawTS{Sec: rapid.Int64Range(tsMaxSec+1, 1<<62).Draw(t, label+"-sec")}
 	case 3:
-		return RawTS{Sec: rapid.Int64Range(-(1 << 62), tsMinSec-1).Draw(t, label+"-sec")}
+		return RawTS{Sec: rapid.Int64Range(-(1<<62), tsMinSec-1).Draw(t, label+"-sec")}
 	case 4:
 		return RawTS{Sec: tsMaxSec + 1}
 	default:
